@@ -96,6 +96,46 @@ func checkC13(c *Ctx) {
 
 	// C13.3 lock discipline
 	c.checkGuard("C13.3", guards["Blockchain"])
+	// C13.9 the per-view index is kept in step with the block table: wherever a block enters `blocks` it is also
+	// recorded under its view in `blockAtHeight`. PruneToHeight examines the views through that index only, so a block
+	// missing from it is never reported as abandoned and its commands are never answered.
+	{
+		n := 0
+		var bad []string
+		for _, fn := range p.ModFuncs {
+			if funcPkgPath(fn) != modPath+"/security/blockchain" || fn.Blocks == nil || strings.HasSuffix(p.FuncPos(fn), "_test.go") {
+				continue
+			}
+			k := NewKeyer(p, fn)
+			eachInstr(fn, func(in ssa.Instruction) {
+				mu, ok := in.(*ssa.MapUpdate)
+				if !ok || !strings.HasSuffix(k.Key(mu.Map), kBC+"blocks") {
+					return
+				}
+				n++
+				bk := k.Key(mu.Value)
+				isIndexed := func(x ssa.Instruction) bool {
+					m2, ok := x.(*ssa.MapUpdate)
+					return ok && strings.HasSuffix(k.Key(m2.Map), kBC+"blockAtHeight") && k.Key(m2.Value) == bk && k.Key(m2.Key) == kBlockView+bk+")"
+				}
+				before := false
+				eachInstr(fn, func(x ssa.Instruction) {
+					if isIndexed(x) && precedes(x, in) {
+						before = true
+					}
+				})
+				if before {
+					return
+				}
+				if w := reachAvoid(in, isReturn, func(x ssa.Instruction) bool { return isIndexed(x) || helperAlways(x, isIndexed, 0) }); w != nil {
+					bad = append(bad, p.InstrPos(in))
+				}
+			})
+		}
+		c.Check(n > 0 && len(bad) == 0, "C13.9", "Blockchain: a stored block is indexed under its view", "security/blockchain/blockchain.go",
+			itoa(n)+" insertion(s) into blocks, each accompanied on every path by blockAtHeight[block.View()] = block",
+			"a block is put into blocks at "+join(bad)+" without being recorded in blockAtHeight: pruning never sees it, so an abandoned block is never reported and its commands are never aborted")
+	}
 
 	// C13.4 / C13.5 pruning
 	c13Prune(c, prune)
